@@ -1,18 +1,22 @@
-use nvh::engine::Part;
-use nvh::props::c07::{Closed, ClosedCase};
+use nvh::props::c08::{LrCase, check_lowrank_exact};
 fn main() {
     nvh::engine::install_quiet_panic_hook();
-    for adam in [false, true] {
-        for lowrank in [false, true] {
-            let mut devs = vec![];
-            for i in 0..240u64 {
-                let c = ClosedCase { log10_scale: -4.0 + 8.0 * ((i * 37 % 240) as f64 / 240.0), dim: 2 + (i as usize * 7) % 19, adam, lowrank, target: 0.6 + 0.3 * ((i * 13 % 240) as f64 / 240.0), seed: i * 7919 + 1 };
-                let o = Closed.check(&c);
-                let msg = o.failure.as_ref().map(|f| f.message.clone()).unwrap_or_default();
-                if let Some(p) = msg.find("acceptance ") { let v: f64 = msg[p + 11..].trim().parse().unwrap_or(f64::NAN); devs.push((v - c.target, c.target, c.dim)); }
-            }
-            let mut a: Vec<f64> = devs.iter().map(|d| d.0).collect(); a.sort_by(|x,y| x.partial_cmp(y).unwrap());
-            println!("adam={adam} lowrank={lowrank}: n={} min {:+.3} p5 {:+.3} median {:+.3} p95 {:+.3} max {:+.3}; worst {:?}", a.len(), a[0], a[a.len()/20], a[a.len()/2], a[a.len()*19/20], a[a.len()-1], devs.iter().filter(|d| d.0.abs()>0.1).map(|d| format!("{:+.2}@t{:.2}d{}", d.0, d.1, d.2)).collect::<Vec<_>>());
-        }
+    let p = std::env::args().nth(1).unwrap();
+    let v: serde_json::Value = serde_json::from_str(&std::fs::read_to_string(p).unwrap()).unwrap();
+    let c: LrCase = serde_json::from_value(v["case"].clone()).unwrap();
+    let o = check_lowrank_exact(&c);
+    println!("{:?}", o.failure);
+    // variants: perturb the duplicate draws
+    for eps in [1e-6, 1e-3, 1e-1] {
+        let mut c2 = c.clone();
+        c2.xs[0] = vec![eps, -eps];
+        c2.xs[1] = vec![-eps * 0.5, eps * 2.0];
+        let o = check_lowrank_exact(&c2);
+        println!("eps {eps}: {:?} {:?}", o.failure.map(|f| f.message), o.skipped);
     }
+    // more draws
+    let mut c3 = c.clone();
+    c3.xs.push(vec![0.3, 0.9]); c3.xs.push(vec![-0.1, -0.5]); c3.xs.push(vec![0.2, 0.1]);
+    let o = check_lowrank_exact(&c3);
+    println!("more draws: {:?} {:?}", o.failure.map(|f| f.message), o.skipped);
 }
